@@ -838,7 +838,11 @@ def c10(ctx):
         for st in streams.fills(shape, 1 if ctx.quick else 3, rnd):
             for cons in ("json", "ubjson", "cborl", "plain", "unfold"):
                 opts = dict(ALL_OPTS[n % 8]) if cons == "json" else dict(OPTS0)
-                cases.append(case("C10", "extcmp", cons if cons not in ("plain", "unfold") else "json", stream=st, opts=opts, sub=dict(consumer=cons), origin="GenEvents"))
+                sub = dict(consumer=cons)
+                if cons in ("json", "ubjson", "cborl"):
+                    # ... and the document the extended run wrote is read back by the library's own parser, in pieces
+                    sub["split"] = rnd.randrange(1, 1 << 20)
+                cases.append(case("C10", "extcmp", cons if cons not in ("plain", "unfold") else "json", stream=st, opts=opts, sub=sub, origin="GenEvents"))
                 n += 1
             if st and st[0]["k"] == "objS":
                 # ... and through visitors.ExpectObjVisitor in front of the consumer (the first document if it is an object: the
@@ -865,7 +869,7 @@ def c10(ctx):
                 if cons == "unfold" and len(st) > 4:
                     continue
                 cases.append(case("C10", "extcmp", cons if cons != "unfold" else "json", stream=st, opts=dict(ALL_OPTS[n % 8]) if cons == "json" else dict(OPTS0),
-                                  sub=dict(consumer=cons), origin="length / count sweep"))
+                                  sub=dict(consumer=cons, split=rnd.randrange(1, 1 << 20)) if cons != "unfold" else dict(consumer=cons), origin="length / count sweep"))
                 n += 1
     number(cases)
     tf, st = core.run_harness(ctx, cases)
@@ -1387,6 +1391,15 @@ def fold_cases(ctx, prop, rows=None):
     for n, r in enumerate(rows):
         for top in (("val", "ptr") if n % 4 == 0 else ("val",)):
             cases.append(case(prop, "fold", "go", sub=dict(T=r["T"], V=gotypes.fill(r["V"], rnd, n), top=top), origin="GenGoType"))
+    # exported fields whose Go identifiers hold upper-case letters outside ASCII (member name = lower-cased field name)
+    def Iv(x):
+        return dict(k="int", ty="int", v=streams.canon(x))
+    UT = dict(k="named", id="UniT")
+    for vals in ((1, b"x", 2, 0), (0, b"", 0, 5)):
+        uv = dict(k="struct", f=[Iv(vals[0]), dict(k="str", ty="string", v=list(vals[1])), Iv(vals[2]), Iv(vals[3])])
+        for top in ("val", "ptr"):
+            cases.append(case(prop, "fold", "go", sub=dict(T=UT, V=uv, top=top), origin="field identifiers with non-ASCII upper-case letters"))
+        cases.append(case(prop, "fold", "go", sub=dict(T=dict(k="slice", e=[UT]), V=dict(k="slice", e=[uv, uv]), top="val"), origin="field identifiers with non-ASCII upper-case letters, in a slice"))
     return cases
 
 
@@ -1578,6 +1591,13 @@ def c11(ctx):
                                    dict(k="map", m=[dict(key=list(k), val=dict(k="ptr", e=[v]) if v is not None else dict(k="ptr", nil=True)) for k, v in idx]) if idx is not None else dict(k="map", nil=True)])
     recs = [("RecNode", node([1])), ("RecNode", node([1, 2, 3])), ("RecNode", node(list(range(1, 9)))),
             ("RecTree", tree(b"r")), ("RecTree", tree(b"r", [tree(b"a"), tree(b"b", [tree(b"c")], [(b"x", tree(b"y")), (b"n", None)])], [(b"k", tree(b"v", [], []))]))]
+    def rmap(depth, width):
+        return dict(k="map", m=[dict(key=list(b"k%d" % j), val=rmap(depth - 1, width)) for j in range(width)] if depth > 0 else [])
+
+    def rsl(depth, width):
+        return dict(k="slice", e=[rsl(depth - 1, width) for j in range(width)] if depth > 0 else [])
+    recs += [("RecMap", rmap(0, 0)), ("RecMap", rmap(2, 2)), ("RecMap", rmap(4, 1)), ("RecSl", rsl(0, 0)), ("RecSl", rsl(2, 2)), ("RecSl", rsl(3, 1)),
+             ("UniT", dict(k="struct", f=[I(3), dict(k="str", ty="string", v=list(b"e")), I(4), I(0)]))]
     for tid, val in recs:
         RT = dict(k="named", id=tid)
         for via in ("direct", "json", "ubjson", "cborl"):
